@@ -159,7 +159,7 @@ theorem merge_strategy_is_per_key (first : Res) (rest : List Res) :
 
 def f10a : Res := ⟨[], [("rmse", 1)], [("a", [1, 2]), ("b", [1, 2, 3])]⟩
 def f10b : Res := ⟨[], [("rmse", 3)], [("b", [3, 2, 1]), ("a", [3, 4])]⟩
-def f10c : Res := ⟨[], [("rmse", 3)], [("a", [3, 2, 1]), ("b", [3, 4])]⟩
+def f10c : Res := ⟨[], [("rmse", 3)], [("b", [3, 4]), ("a", [3, 2, 1])]⟩
 
 /-- **F10, the pinned code**: two results holding the same arrays with equal per-key lengths,
 listed in a different order (`f10a`, `f10b`), were concatenated instead of averaged; with
